@@ -282,9 +282,19 @@ def run_case(griffe, acc, case):
             if container != "builtin" and agent == "static":
                 from _griffe import cli
 
-                for full in (False, True):
+                # the package is requested by name (with search paths), by the path of its top-level file / directory, or through one of its submodules
+                spellings = [("name", top)]
+                if container in ("package", "pkg-nested"):
+                    # (a single-file top-level module cannot be requested by path: the finder takes its directory for the package, upstream too)
+                    spellings.append(("path", os.path.join(sps[0], top)))
+                if container == "package":
+                    spellings.append(("submodule", top + ".sub"))
+                for spelling, request in spellings:
+                  for full in (False, True):
                     out = os.path.join(d, "out.json")
-                    args = ["dump", top, "-o", out, "-X"] + (["--find-stubs-packages"] if container.startswith("stubs-package") else []) + [x for sp in sps for x in ("-s", sp)] + (["-f"] if full else []) + (["-r", "-I", "--no-resolve-external"] if resolve else [])
+                    if os.path.exists(out):
+                        os.unlink(out)
+                    args = ["dump", request, "-o", out, "-X"] + (["--find-stubs-packages"] if container.startswith("stubs-package") else []) + ([x for sp in sps for x in ("-s", sp)] if spelling != "path" else []) + (["-f"] if full else []) + (["-r", "-I", "--no-resolve-external"] if resolve else [])
                     try:
                         rc = cli.main(args)
                         got = open(out).read()
@@ -297,7 +307,7 @@ def run_case(griffe, acc, case):
                         continue  # already reported under serialize/
                     if got.rstrip("\n") != exp.rstrip("\n") or rc != 0:
                         dd = _first_diff(json.loads(exp), json.loads(got)) if got.strip().startswith("{") else ("<not json>", "", got[:80])
-                        acc.violation(f"cli/diff/{'full' if full else 'minimal'}/{container}/{'resolved' if resolve else 'unresolved'}", f"`griffe {' '.join(a if not a.startswith('/') else '<p>' for a in args)}` (rc={rc}) differs from the API serialisation at {dd[0] if dd else 'whitespace'}", cd, None, size=size)
+                        acc.violation(f"cli/diff/{'full' if full else 'minimal'}/{container}/{'resolved' if resolve else 'unresolved'}" + ("" if spelling == "name" else "/by-" + spelling), f"`griffe {' '.join(a if not a.startswith('/') else '<p>' for a in args)}` (rc={rc}) differs from the API serialisation at {dd[0] if dd else 'whitespace'}", cd, None, size=size)
 
 
 def run_shard(shard, tier):
